@@ -274,6 +274,7 @@ class State:
             a = z3.Const('H0_' + fid, z3.ArraySort(Ref, sort))
             self.ctx.heap0[fid] = a
             self.heap[fid] = a
+            self.ctx.note_heap_array(a, sort)
         return a
 
     def alloc_arr(self):
@@ -370,7 +371,15 @@ class Ctx:
         self.await_hook = None
         self.spec_builtin_hook = None
         self.type_aliases = {}
+        self.heap_axioms = []
         self.ghost_objects = {}      # name -> RefV (global ghost objects such as the call log)
+
+    def note_heap_array(self, arr, sort):
+        """typing invariant of list-valued heap fields: every stored list has a non-negative length"""
+        if sort.kind() == z3.Z3_DATATYPE_SORT and sort.name().startswith('List_'):
+            o = z3.Const('o!ln', Ref)
+            ln = sort.accessor(0, 0)
+            self.heap_axioms.append(z3.ForAll([o], ln(z3.Select(arr, o)) >= 0, patterns=[z3.Select(arr, o)]))
 
     ALIASES = {'float_': 'float', '_float': 'float', 'int_': 'int', '_int': 'int', 'str_': 'str', '_str': 'str',
                'bytes_': 'bytes', '_bytes': 'bytes', 'List': 'list', 'Dict': 'dict', 'Set': 'set',
